@@ -106,7 +106,8 @@ def _check_type(value: Any, type_: Any, err: str, type_vars: Dict[TypeVar_, Any]
         return value == type_
     elif isinstance(type_, str):
         class_name = value.__class__.__name__
-        base_class_name = value.__class__.__base__.__name__
+        base_class = value.__class__.__base__
+        base_class_name = base_class.__name__ if base_class is not None else None
         return class_name == type_ or base_class_name == type_
 
     try:
